@@ -258,7 +258,7 @@ def replay_file(mod, path):
     return None, rec["subcheck"]
 
 
-def run_property(mod, tier, seed, collect=False, only=None):
+def run_property(mod, tier, seed, collect=False, only=None, pins_only=False):
     prop = mod.PROPERTY
     t0 = time.time()
     violations = 0
@@ -309,7 +309,7 @@ def run_property(mod, tier, seed, collect=False, only=None):
 
     # 3. generated search
     tasks = []
-    for s in subs:
+    for s in ([] if pins_only else subs):
         if s.cases is not None:
             ns = min(s.max_shards, NPROC)
         else:
@@ -391,7 +391,7 @@ def run_property(mod, tier, seed, collect=False, only=None):
         "wall_s": round(time.time() - t0, 2),
         "violations": violations,
     }
-    if only is None:
+    if only is None and not pins_only:
         evdir = os.environ.get("VERIF_EVIDENCE_DIR") or os.path.join(VERIF_DIR, "evidence")
         os.makedirs(evdir, exist_ok=True)
         with open(os.path.join(evdir, prop + ".json"), "w") as f:
